@@ -20,24 +20,27 @@ _R4 = '_ZN8dispenso21ConcurrentObjectArenaINS_14MpmcRingBufferINS_12OnceFunction
 _GROUPS = {
     0: ('pool', 'ThreadPool::schedule(f, FQ) | schedulePlaced(f, FQ) | schedule(ProducerToken&, f, FQ) | '
                 'schedulePlaced(ProducerToken&, f, FQ) (symbolic choice)'),
-    1: ('sets', 'TaskSet::schedule(f, FQ) | ConcurrentTaskSet::schedule(f, FQ) with cost kHeavy/kLightweight '
-                '(symbolic choice)'),
-    2: ('bulk', 'TaskSet::scheduleBulk(n, gen, FQ) | ConcurrentTaskSet::scheduleBulk(n, gen, FQ) '
-                '(symbolic choice)'),
+    1: ('sched', '::schedule(f, FQ)'),
+    2: ('bulk', '::scheduleBulk(n, gen, FQ)'),
 }
+_SETS = {0: ('ts', 'TaskSet'), 1: ('cts', 'ConcurrentTaskSet (cost kHeavy/kLightweight symbolic)')}
 
 
-def _inst(grp, n, tiers, count=None):
+def _inst(grp, n, tiers, st=None, count=None):
     name, what = _GROUPS[grp]
+    if st is not None:
+        name = _SETS[st][0] + '_' + name
+        what = _SETS[st][1] + what
     if count is not None:
         what += ' with n = %d' % count
     return {
-        'name': '%s_n%d' % (name, n) + ('_c%d' % count if count is not None else ''), 'src': 'fq.cpp', 'engine': 'cbmc', 'shims': ['moodycamel'],
+        'name': '%s_n%d' % (name, n) + ('_c%d' % count if count is not None else ''),
+        'src': 'fq.cpp', 'engine': 'cbmc', 'shims': ['moodycamel'],
         'repo_sources': _SRC, 'rt_defs': {'VF_HAVE_THREAD_MODEL': 1}, 'models': ['aligned_alloc'],
         'allow_externals': ['_ZN8dispenso6detail27registerFineSchedulerQuantaEv'],
-        'defs': {'VF_N': n, 'VF_GROUP': grp, 'VF_MQ_CAP': 4, 'VF_COUNT': count or 0},
+        'defs': {'VF_N': n, 'VF_GROUP': grp, 'VF_MQ_CAP': 4, 'VF_COUNT': count or 0, 'VF_SET': st or 0},
         'cflags': ['-DDISPENSO_TUNE_STEAL_RING_SHARING=1'],
-        'unwind': 3, 'nthreads': 1, 'unwindset': {_R16: 17, _R4: 5}, 'timeout': 600, 'tiers': tiers, 'must_reach': 'all',
+        'unwind': 3, 'nthreads': 1, 'unwindset': {_R16: 17, _R4: 5}, 'timeout': 600, 'tiers': tiers,
         'bounds': ('one call of %s on a real ThreadPool(%d) (real constructor; steal-ring capacity 4 via '
                    'DISPENSO_TUNE_STEAL_RING_SHARING=1); symbolic pre-state: workRemaining_ in [-16,2^40], '
                    'poolLoadFactor_ in [0,2^40], numNotWorking_, signaling-wake on/off, central-queue hint, '
@@ -51,11 +54,15 @@ def _inst(grp, n, tiers, count=None):
 
 INSTANCES = [
     _inst(0, 1, ['quick', 'thorough']),
-    _inst(1, 1, ['quick', 'thorough']),
-    _inst(2, 1, ['quick', 'thorough'], 2),
-    _inst(0, 2, ['quick', 'thorough']),
-    _inst(1, 2, ['thorough']),
-    _inst(2, 1, ['thorough'], 1),
-    _inst(2, 1, ['thorough'], 3),
-    _inst(2, 2, ['thorough'], 3),
+    _inst(1, 1, ['quick', 'thorough'], 0),
+    _inst(1, 1, ['quick', 'thorough'], 1),
+    _inst(2, 1, ['quick', 'thorough'], 0, 2),
+    _inst(2, 1, ['thorough'], 1, 2),
+    _inst(0, 2, ['thorough']),
+    _inst(1, 2, ['thorough'], 0),
+    _inst(1, 2, ['thorough'], 1),
+    _inst(2, 1, ['thorough'], 0, 3),
+    _inst(2, 1, ['thorough'], 1, 1),
+    _inst(2, 2, ['thorough'], 0, 3),
+    _inst(2, 2, ['thorough'], 1, 3),
 ]
